@@ -187,7 +187,8 @@ func runAskerLife(seed int64, round int) (*Trace, error) {
 		return nil, fmt.Errorf("the asker was not spawned")
 	}
 	// the Asks of this round: at least one long one, tiny ones around it
-	timeouts := []time.Duration{time.Nanosecond, time.Microsecond, 20 * time.Microsecond, 2 * time.Millisecond, 4 * time.Second, 4 * time.Second}
+	// (a time-out of zero or less means "no time-out": such an Ask ends with its reply or with the asker)
+	timeouts := []time.Duration{time.Nanosecond, time.Microsecond, 20 * time.Microsecond, 2 * time.Millisecond, 4 * time.Second, 4 * time.Second, 0, -1}
 	n := 2 + rng.Intn(4)
 	var asks []lifeAsk
 	long := rng.Intn(n)
